@@ -39,9 +39,29 @@ def _drop_node(case, v, setkeys):
     return c
 
 
+def _bounded(fails, budget_s=90.0, per_call_cpu_s=20.0):
+    """`fails` under a CPU-time limit per evaluation (a call that does not return still FAILS) and a wall-clock budget
+    for the whole shrink (afterwards every candidate is rejected, i.e. the current case is kept)"""
+    import time
+    from . import common as C
+    t_end = time.time() + budget_s
+
+    def f(c):
+        if time.time() > t_end:
+            return False
+        try:
+            with C.time_limit(per_call_cpu_s):
+                return fails(c)
+        except C.CallTimeout:
+            return True
+    return f
+
+
+
 def shrink_case(case, fails, setkeys=("X", "Y", "Z", "L", "S", "I", "R", "x", "y", "u", "a", "c", "s", "t"),
                 optional_sets=("Z", "L", "S", "I"), max_rounds=200):
     """greedy shrink while `fails(case)` stays true"""
+    fails = _bounded(fails)
     cur = copy.deepcopy(case)
     for k in ("layers", "cls", "fam", "names"):
         if k in cur:
@@ -84,6 +104,7 @@ def shrink_case(case, fails, setkeys=("X", "Y", "Z", "L", "S", "I", "R", "x", "y
 
 
 def shrink_ops(ops, fails, max_rounds=400):
+    fails = _bounded(fails)
     """ddmin-lite on an operation list"""
     cur = list(ops)
     n = 2
